@@ -344,7 +344,7 @@ func mutateAll(c *core.Ctx, base []byte, f func(*core.Ctx, []byte, bool)) {
 
 var c15pathAtoms = []string{"", "a", "b", "doc", "*", "[", "]", "[0]", "[-1]", "[x]", "[99999999999]", "a[1]", "a[0]", "a[", "a]", "a[1][2]", "*[0]", "-", "#text", " ", "é", "a[-3]", "b[2147483648]", "k[]", "[1]a"}
 var c15subkeys = []string{"", ":", ":x", "k:", "k:v", "!:", "!", "!k:v:bool", "k:v:bool", "k:1:num:x", "k:*", "!k:*", "k:true:bool", "k:x:float", "!:*", "a:b", "::", "!a:1:num", "a:b:string"}
-var c15pairs = []string{"", ":", "a:", ":b", "a:b:c", "a:b", "*:x", "a[0]:b", "a:b.*", "a:b[0]", "a.", ".a", "a..b:c", "doc:doc.x", "doc:n.", "a[-1]:q", "b[x]:q"}
+var c15pairs = []string{"a:.", "doc:..", "a.b:.", "k:...", "doc:.x", "", ":", "a:", ":b", "a:b:c", "a:b", "*:x", "a[0]:b", "a:b.*", "a:b[0]", "a.", ".a", "a..b:c", "doc:doc.x", "doc:n.", "a[-1]:q", "b[x]:q"}
 
 func c15junkPath(r *rand.Rand) string {
 	n := 1 + r.Intn(4)
@@ -359,7 +359,9 @@ func c15args(c *core.Ctx) {
 	r := c.R
 	keys := []string{"a", "b", "doc", "k", "", "-x", "#text", "*", "a.b", "[0]", "é"}
 	g := jv.GenOpt{Keys: keys, MaxFan: 3, WideProb: 50, ListInList: true, EmptyConts: true, Nulls: true, Scalars: func(r *rand.Rand) interface{} {
-		switch r.Intn(6) {
+		switch r.Intn(7) {
+		case 6:
+			return mxj.Map{"k": "v", "a": mxj.Map{"b": 1}} // a nested value of the named type, as SetValueForPath(mxj.Map{...}) stores it
 		case 0:
 			return r.Intn(5)
 		case 1:
@@ -370,6 +372,11 @@ func c15args(c *core.Ctx) {
 	}}.Fresh()
 	root := g.Map(r, 1+r.Intn(4))
 	m := mxj.Map(root)
+	typed := r.Intn(2) == 0
+	if typed {
+		// values of the named type mxj.Map below the root, as a caller's SetValueForPath(mxj.Map{...}) leaves them
+		m.SetValueForPath(mxj.Map{"k": "v", "sub": mxj.Map{"k": float64(1), "l": []interface{}{mxj.Map{"k": "w"}}}}, "typed")
+	}
 	errs := 0
 	call := func(name string, f func() error) {
 		c.Count("args:calls")
@@ -379,6 +386,9 @@ func c15args(c *core.Ctx) {
 	}
 	for i := 0; i < 12; i++ {
 		p := c15junkPath(r)
+		if typed && r.Intn(3) == 0 {
+			p = []string{"typed.k", "typed.sub.k", "typed", "typed.*", "typed.sub", "typed.sub.l.k", "*.sub.k", "typed.sub.l"}[r.Intn(8)]
+		}
 		sk := []string{}
 		for j, n := 0, r.Intn(3); j < n; j++ {
 			sk = append(sk, c15subkeys[r.Intn(len(c15subkeys))])
